@@ -354,7 +354,7 @@ def buildCase : P String := do
   | .error e => pure (errStr e)
   | .ok b =>
     let mp := " ".intercalate (b.speciesMap.map fun e => s!"{e.1}:{e.2}")
-    pure s!"build map={mp} names={" ".intercalate b.variableNames} atol={showFs b.atol.toList} nz={showPs b.nonZero}"
+    pure s!"build map={mp} names={" ".intercalate b.variableNames} atol={showFs b.atol.toList}"
 
 /-- standalone `DiagonalMarkowitzReorder` on an n x n 0/1 pattern -/
 def markowitzCase : P String := do
